@@ -27,3 +27,36 @@ func TestDigest(t *testing.T) {
 	st, _ := trie.NewSlimTrie(te, []string{"a"}, []int32{1})
 	_ = Digest(st)
 }
+
+func TestMemWatch(t *testing.T) {
+	st, _ := trie.NewSlimTrie(encode.I32{}, []string{"a", "b", "cd", "ce"}, []int32{1, 2, 3, 4}, trie.Opt{Complete: trie.Bool(true)})
+	g := 5
+	w := NewMemWatch(st, &g)
+	n, b, s := w.Regions()
+	t.Logf("regions=%d bytes=%d slow=%d", n, b, s)
+	if w.Changed() {
+		t.Fatal("changed without a write")
+	}
+	st.Get("cd")
+	st.Marshal()
+	_ = st.String()
+	if w.Changed() {
+		t.Fatal("reads changed the watched memory")
+	}
+	g = 6
+	if !w.Changed() {
+		t.Fatal("global write not seen")
+	}
+	if w.Changed() {
+		t.Fatal("change reported twice")
+	}
+	buf, _ := st.Marshal()
+	st.Unmarshal(buf)
+	if !w.Changed() {
+		t.Fatal("reload not seen")
+	}
+	st.Reset()
+	if !w.Changed() {
+		t.Fatal("reset not seen")
+	}
+}
